@@ -76,6 +76,7 @@ func (o *oracleState) atFixedPoint(s *Sim) {
 			s.violate("C01", "C01.converged-ordinals", slotClass(set.Annotations, specReplicas(set)), fmt.Sprintf("fixed point of %s: live ordinals %v, model %v (replicas=%d slots=%q)", set.Name, sortedOrdinals(live), sortedOrdinals(D), specReplicas(set), set.Annotations[annSlots]))
 		}
 	}
+	s.checkMigrationEnd()
 	// C03: scale-in at slot k removed pod k and nothing else
 	for _, name := range sortedKeys(o.scaleIn) {
 		w := o.scaleIn[name]
